@@ -372,7 +372,7 @@ func (w *world) battery() (queries int) {
 			w.viol("chain-gap-or-repeat", "fixed-limit chain from the oldest offset yields "+fewerMore(len(got), L)+" events than the log holds", fmt.Sprintf("chaining Read with limit %d from the oldest offset yields %d events, the log has %d", n, len(got), L))
 		}
 	}
-	for _, id := range []string{"a", "b", "zz"} {
+	for _, id := range []string{idA, idB, idNone} {
 		queries++
 		want := w.saved[id]
 		got, err := w.hd.Sub.LoadOffset(bg, id)
@@ -407,7 +407,7 @@ func (w *world) closing(kind string) (q int) {
 		L += 2
 		q += w.battery()
 		q += w.scribble()
-		if w.apply(kind, sop{K: "save", ID: "a", Pos: L}) && w.apply(kind, sop{K: "reopen"}) && w.apply(kind, sop{K: "append"}) {
+		if w.apply(kind, sop{K: "save", ID: idA, Pos: L}) && w.apply(kind, sop{K: "reopen"}) && w.apply(kind, sop{K: "append"}) {
 			q += w.light()
 		}
 	}
@@ -555,7 +555,7 @@ func (w *world) overlappingStreams() (queries int) {
 // light is the reduced battery for transitions into already examined states: saved
 // offsets, one full read, one full stream.
 func (w *world) light() (queries int) {
-	for _, id := range []string{"a", "b"} {
+	for _, id := range []string{idA, idB} {
 		queries++
 		want := w.saved[id]
 		got, err := w.hd.Sub.LoadOffset(bg, id)
@@ -650,13 +650,13 @@ func searchStructure(c *h.Check, kind string, preload, depth int, idx *int) {
 			}
 			var succ []sop
 			succ = append(succ, sop{K: "append"})
-			for _, id := range []string{"a", "b"} {
+			for _, id := range []string{idA, idB} {
 				for p := 0; p <= L; p++ {
 					if preload > 0 && p != 0 && p < preload-1 {
 						continue // on preloaded logs only positions around the end
 					}
 					succ = append(succ, sop{K: "save", ID: id, Pos: p})
-					if id == "a" && (p == L || p == 0) {
+					if id == idA && (p == L || p == 0) {
 						succ = append(succ, sop{K: "save-cancelled", ID: id, Pos: p})
 					}
 				}
@@ -685,7 +685,7 @@ func searchStructure(c *h.Check, kind string, preload, depth int, idx *int) {
 				if o.K == "reopen" || o.K == "second" {
 					tail = "/" + o.K // the state right after a reopen / next to a second store is examined once
 				}
-				k := fmt.Sprintf("%d|a%s,b%s%s", LL, saved["a"], saved["b"], tail)
+				k := fmt.Sprintf("%d|a%s,b%s%s", LL, saved[idA], saved[idB], tail)
 				if seen[k] {
 					exec(ops, false, true)
 					continue
@@ -708,11 +708,19 @@ type valCase struct {
 	TS   int    `json:"ts"`
 }
 
+// The subscription ids of the histories: two that are different strings and the same
+// number, and a third spelling of that number that is never saved (its offset is always
+// the oldest). Ids are opaque strings; a store that compares them as anything else mixes
+// these up.
+const idA, idB, idNone = "7", "07", "7.0"
+
 var typeStrings = []string{"a", "", "π/☃", `with "quotes" and spaces`, "github.com/x/y.Type", "a\nb",
 	// beyond nFullTypes: strings that a column with a numeric affinity, or a layer that guesses
 	// types, would rewrite (message codes such as ISO 8583's "0200" are type names in the wild);
 	// one document and one timestamp each, the facets are judged separately
-	"0200", "7.0", "1e3", " 42", "+5", "12345678901234567890", "-0", "0x1F", "1.50", "true", "null", ".5", "5.", "1e400"}
+	"0200", "7.0", "1e3", " 42", "+5", "12345678901234567890", "-0", "0x1F", "1.50", "true", "null", ".5", "5.", "1e400",
+	// characters that Go's and JSON's string quoting write differently
+	"unit\x1fseparator", "nul\x00", "del\x7f", "bell\a tab\v", "esc\x1b[0m", "astral\U000e0001tag"}
 
 const nFullTypes = 6
 var docs = []string{`{}`, `null`, `[1,2]`, `"a string"`, `{"a":{"b":[1,{"c":null}]}}`, `12345678901234567890123`, `9223372036854775808`, `1.5e300`,
@@ -1379,6 +1387,6 @@ func main() {
 		"SQLite databases are temp files (one per state); two sqlite.New(\":memory:\") stores are checked for isolation separately",
 		"states are merged on (log length, saved offsets); reads never change a conforming store, so the full query battery is applied in every state instead of being part of the alphabet",
 	}, run, replay, func(tier string) map[string]any {
-		return map[string]any{"rule": "breadth-first over {Append, SaveOffset(id in a,b; every position), reopen, open a second store} to depth 4/5 from the empty log and depth 2/3 from logs preloaded with 8,9,10,11 events, for 5 store configurations; in every state: Read(o,n) for every event offset o and n in {-1,0,1,2,3}, resume from every returned next offset and every returned event offset, ReadStream from every offset, fixed-limit chains, LoadOffset; values: 6 type strings x 12 JSON documents x 11 timestamps appended to a fresh and a non-empty log on 3 stores"}
+		return map[string]any{"rule": "breadth-first over {Append, SaveOffset(id in a,b; every position), reopen, open a second store} to depth 4/5 from the empty log and depth 2/3 from logs preloaded with 8,9,10,11 events, for 5 store configurations; in every state: Read(o,n) for every event offset o and n in {-1,0,1,2,3}, resume from every returned next offset and every returned event offset, ReadStream from every offset, fixed-limit chains, LoadOffset; values: 6 type strings x 12 JSON documents x 11 timestamps, and 14 more type strings that look like numbers or literals (one document and timestamp each), appended to a fresh and a non-empty log on 3 stores; store calls nested in a stream's loop body, and an Append after a stream stopped early, on 4 SQLite configurations (real-time oracle)"}
 	})
 }
